@@ -9,6 +9,10 @@ Line-protocol handler of C10 / C09 / C11 (event assembly):
       | panic <site>
     A bank name is written literally when it consists of ASCII letters and digits only, else as
     `~<hex of its UTF-8 bytes>` (`~` alone: the empty name). Data in lowercase hex (`-` = empty).
+  eventorders <run> <name>=<hex> …
+      → the distinct answers of `event` over two `HashMap::into_values()` orders of the chunk groups
+        (insertion order and its reverse), sorted, joined by ` | ` (C11: when the answer depends
+        on the order, both are listed)
   cal <which> <run> <i> [<j>]  → ok <value> | err <Variant>   one calibration lookup (diagnosis)
 
 The carrier is `Float`: `Float.ofInt` (exact for `i32`), `Float.ofBits`, one multiplication.
@@ -85,8 +89,23 @@ def render {β : Type} (f : β → String) : Outcome String β → String
   | .err e => s!"err {e}"
   | .panic s => s!"panic {s}"
 
+/-- Reverse insertion order. -/
+def revOrder : GroupOrder := ⟨List.reverse, fun l => List.reverse_perm l⟩
+
+def showOutcome : Outcome Err (Event Float) → String
+  | .ok ev => showEvent ev
+  | .err e => s!"err {errName e}"
+  | .panic s => s!"panic {s}"
+
 def handle (cmd : String) (args : List String) : Option String :=
   match cmd, args with
+  | "eventorders", run :: banks =>
+    match run.toNat?, parseBanks banks with
+    | some r, some bs =>
+      let a := showOutcome (buildEventWith floatOps GroupOrder.id r bs)
+      let b := showOutcome (buildEventWith floatOps revOrder r bs)
+      some (if a == b then a else if a < b then s!"{a} | {b}" else s!"{b} | {a}")
+    | _, _ => some "bad-request"
   | "event", run :: banks =>
     match run.toNat?, parseBanks banks with
     | some r, some bs =>
